@@ -153,6 +153,11 @@ func gen(t *rapid.T, big int) scen.Case {
 		c.Files[0].Size = S*rapid.IntRange(257, maxSlices/2).Draw(t, "bigslices") + rapid.IntRange(0, S-1).Draw(t, "rem")
 	}
 	c.NRec = rapid.OneOf(rapid.IntRange(1, 12), rapid.IntRange(1, 4)).Draw(t, "nrec")
+	if big == 0 && scen.TotalSlices(c.Files, S)*S <= 8000 && rapid.IntRange(0, 11).Draw(t, "manyblocks") == 0 {
+		// many recovery blocks spread over several volume files
+		c.NRec = rapid.IntRange(13, 300).Draw(t, "nrecbig")
+	}
+	c.Index = rapid.SampledFrom([]string{"", "", "", "my set.par2", "arch[1].par2", "x.y.par2", "q?.par2", "set.PAR2.par2"}).Draw(t, "index")
 	c.GCreate = rapid.SampledFrom(gchoices).Draw(t, "gc")
 	c.GRepair = rapid.SampledFrom(gchoices).Draw(t, "gr")
 	c.DoubleCheck = rapid.Bool().Draw(t, "dc")
@@ -194,6 +199,12 @@ func TestCheck(t *testing.T) {
 		}
 		if c.NRec > 1 {
 			rec.Class("multi-volume")
+		}
+		if c.NRec > 12 {
+			rec.Class("blocks>12")
+		}
+		if c.Index != "" {
+			rec.Class("index-name-variant")
 		}
 		if c.GRepair > 1 || c.GCreate > 1 {
 			rec.Class("goroutines>1")
